@@ -30,6 +30,16 @@ func CallName(c ssa.CallInstruction) string {
 		return "dynamic:" + v.Name()
 	case *ssa.FreeVar:
 		return "dynamic:" + v.Name()
+	case *ssa.UnOp:
+		// call through a captured / address-taken function variable
+		switch a := v.X.(type) {
+		case *ssa.FreeVar:
+			return "dynamic:" + a.Name()
+		case *ssa.Alloc:
+			if a.Comment != "" {
+				return "dynamic:" + a.Comment
+			}
+		}
 	}
 	return "dynamic"
 }
